@@ -975,6 +975,47 @@ func ruleNodeLayer(c *Ctx) {
 			}
 			return true
 		})
+		// the free-slot scan starts at the first slot: a scan that starts later never reuses the
+		// slots before its start, and runs off the array when only those are free
+		ast.Inspect(au.Body, func(n ast.Node) bool {
+			f, ok := n.(*ast.ForStmt)
+			if !ok || f.Cond == nil || f.Init != nil || !strings.Contains(types.ExprString(f.Cond), ".pointer") || !strings.Contains(types.ExprString(f.Cond), "children") {
+				return true
+			}
+			var iv *types.Var
+			ast.Inspect(f.Cond, func(z ast.Node) bool {
+				if ie, ok := z.(*ast.IndexExpr); ok && strings.HasSuffix(types.ExprString(ie.X), "children") {
+					iv = identVar(info, ie.Index)
+				}
+				return true
+			})
+			if iv == nil {
+				return true
+			}
+			def := singleDefBefore(info, au.Body, iv, f.Pos())
+			if def == nil {
+				return true
+			}
+			d := ast.Unparen(def)
+			for {
+				cv, ok := d.(*ast.CallExpr)
+				if !ok || !isConversion(info, cv) || len(cv.Args) != 1 {
+					break
+				}
+				d = ast.Unparen(cv.Args[0])
+			}
+			tv, isConst := info.Types[d]
+			if !isConst || tv.Value == nil {
+				return true
+			}
+			k2 := k.Struct.Obj().Name() + " free-slot scan starts at the first slot"
+			if tv.Value.ExactString() == "0" {
+				c.r.ok("R37", k2, m.pos(f.Pos()), iv.Name()+" starts at 0", "C10", "C01", "C11")
+			} else {
+				c.r.bad("R37", k2, m.pos(def.Pos()), fmt.Sprintf("the scan for a free child slot starts at slot %s: the slots before it are never reused, and when they are the only free ones the scan runs off the children array (index out of range on an insert after deletes)", tv.Value.ExactString()), "C10", "C01", "C11")
+			}
+			return true
+		})
 		key := k.Struct.Obj().Name() + " slot allocation agrees with how deleteChild vacates slots"
 		switch {
 		case slotKind == "":
@@ -1426,4 +1467,23 @@ func (c *Ctx) wipeHelper(u *FuncUnit) (int, bool) {
 		return true
 	})
 	return idx, found
+}
+
+// singleDefBefore: the right-hand side of the last definition/assignment of v that precedes pos
+// in body (nil if there is none).
+func singleDefBefore(info *types.Info, body ast.Node, v *types.Var, pos token.Pos) ast.Expr {
+	var out ast.Expr
+	ast.Inspect(body, func(n ast.Node) bool {
+		as, ok := n.(*ast.AssignStmt)
+		if !ok || as.Pos() >= pos || len(as.Lhs) != len(as.Rhs) {
+			return true
+		}
+		for i, l := range as.Lhs {
+			if identVar(info, l) == v {
+				out = as.Rhs[i]
+			}
+		}
+		return true
+	})
+	return out
 }
